@@ -147,6 +147,13 @@ def run(F, rep, tier):
     writers_rule(F, rep)
     from props import C10
     C10.same_version_rule(F, rep)
+    # "each field the library exposes": the columns are also exposed through the per-frame row view (Game::frame /
+    # transpose_one); a field, or a whole character, filtered out or crossed there is exposed wrongly although the column is right
+    from props import C13
+    M13 = model.Model(F, rep, want=("m_transpose", "i_transpose", "with_capacity"))
+    model.rule_L3(rep, M13, sibs=("m_transpose", "i_transpose"))
+    C13.container_rule(F, rep, M13)
+    C13.forwarders(F, rep)
     n_gated = sum(1 for s in model.EVENT_STRUCTS for f in M.spec[s]["fields"] if f.get("since"))
     rep.counts["version_classes"] = len(M.classes)
     rep.counts["spec_fields"] = sum(len(M.spec[s]["fields"]) for s in model.EVENT_STRUCTS)
